@@ -60,7 +60,8 @@ PoolHist == { Base("r1"), [Base("r1") EXCEPT !.path = <<"dyn", "/X/@m">>],
               [Base("r4") EXCEPT !.hdrs = <<H("X-K", "contains", "v")>>, !.times = <<TW>>] }
 PoolHistQ == { Base("r1"), [Base("r1") EXCEPT !.path = <<"dyn", "/X/@m">>],
                [Base("r2") EXCEPT !.path = <<"dyn", "/X/@m/y">>], [Base("r2") EXCEPT !.host = <<"dyn", "@sub.example.com">>],
-               [Base("r3") EXCEPT !.host = <<"static", "example.com">>, !.ips = <<<<"in", "10.0.0.0/8">>, <<"not_in", "10.1.0.0/16">>>>] }
+               [Base("r3") EXCEPT !.host = <<"static", "example.com">>, !.ips = <<<<"in", "10.0.0.0/8">>, <<"not_in", "10.1.0.0/16">>>>],
+               [Base("r3") EXCEPT !.path = <<"dyn", "/x/@m">>] }
 
 Cfg(a, b, c, d) == [ihc |-> a, ihdr |-> b, ipc |-> c, always |-> d]
 CfgsAll == {Cfg(a, b, c, d) : a, b, c, d \in BOOLEAN}
